@@ -381,7 +381,7 @@ func init() {
 	lib.Register(&lib.Property{
 		ID:          "C02",
 		Level:       "exploration",
-		Rule:        "pairs weighted to path-level relations (rename, swap, chain, duplicate with/without original, patched+rename-source, grow/shrink/empty, deleted dirs, symlinks incl. destinations that change only in spelling, kind swaps incl. a symlink that becomes a regular copy of an old file); plain and optimized patch; in a third of the cases the pools given to patcher and optimizer hand a just-used reader back at an arbitrary position; each applied in place through the overlay bowl R times from byte-identical starting states (Go randomises map iteration per range, repetition is the only lever on commit order; the mv/cp/overlay/ghost sequence of every commit is parsed from BOWL_OVERLAY_VERBOSE output). Oracle: inode/mtime/size/checksum snapshot of the directory before Resume == snapshot right before Commit; tree after Commit == new build == fresh application. distinct = distinct (relation-set signature, patch kind) with >=1 non-'unchanged' relation",
+		Rule:        "three of every eight cases sign and diff against an old container whose directories are listed children-first or in a seeded random order (links shuffled), as a container not produced by a directory walk may be; pairs weighted to path-level relations (rename, swap, chain, duplicate with/without original, patched+rename-source, grow/shrink/empty, deleted dirs, symlinks incl. destinations that change only in spelling, kind swaps incl. a symlink that becomes a regular copy of an old file); plain and optimized patch; in a third of the cases the pools given to patcher and optimizer hand a just-used reader back at an arbitrary position; each applied in place through the overlay bowl R times from byte-identical starting states (Go randomises map iteration per range, repetition is the only lever on commit order; the mv/cp/overlay/ghost sequence of every commit is parsed from BOWL_OVERLAY_VERBOSE output). Oracle: inode/mtime/size/checksum snapshot of the directory before Resume == snapshot right before Commit; tree after Commit == new build == fresh application. distinct = distinct (relation-set signature, patch kind) with >=1 non-'unchanged' relation",
 		Assumptions: []string{"tmpfs/ext4 nanosecond mtimes and stable inodes", "stage folder is outside the output directory", "map-order exploration is by repetition only"},
 		Cases:       c02Cases,
 		Run:         c02Run,
